@@ -46,6 +46,21 @@ type raCase struct {
 
 func raText(s string, c int) string { return strings.ReplaceAll(s, "#", strconv.Itoa(c)) }
 
+// raClass abstracts a chunk kind for signatures.
+func raClass(kind string) string {
+	switch kind {
+	case "func", "method", "opmethod":
+		return "funcdecl"
+	case "var", "type", "vargroup":
+		return "decl"
+	case "flitres", "conv":
+		return "funcexpr"
+	case "import":
+		return "import"
+	}
+	return "stmt"
+}
+
 type raFinding struct {
 	prio   int
 	sig    string
@@ -164,7 +179,7 @@ func runRearrange() {
 					prio := 7
 					if sig == "" {
 						v := invs[0]
-						sig = "order:" + c.Script[v.j].Kind + "-before-" + c.Script[v.i].Kind
+						sig = "order:" + raClass(c.Script[v.j].Kind) + "-before-" + raClass(c.Script[v.i].Kind)
 						prio = 6
 					}
 					add(prio, sig, show)
